@@ -18,12 +18,13 @@ RULE = (
     "chunk iterable x storage mode x value columns. Oracle: the per-cell model tables; the independent schema "
     "validator per cell; HDF5 object addresses for the shared bin columns. Non-trivial = >=2 cells with different "
     "non-empty content. Distinct by sha1 of the canonical case."
-    " Also: a bin column stored in ONE cell after creation must not appear in other cells or at file level; cell keys spelled '/cells/<name>' (names starting with letters of 'cells/'); arguments equal to defaults left out."
+    " Also: a bin column stored in ONE cell after creation must not appear in other cells or at file level; cell keys spelled '/cells/<name>' (names starting with letters of 'cells/'); arguments equal to defaults left out; names with a leading or trailing blank beside the same name without it; per-cell tables out of order (inside rows only, or completely) with ensure_sorted=True."
 )
 ASSUMPTIONS = ["per-cell pixel tables are sorted by (bin1_id, bin2_id) as create_scool documents"]
 
 CELL_NAMES = st.one_of(
-    st.sampled_from(["cell1", "cell2", "cell10", "cell_a", "A", "b", "GSM123.1", "c-1", "10", "9", "x y", "sample_A", "esc_1", "l1", "s", "cells", "ce"]),
+    st.sampled_from(["cell1", "cell2", "cell10", "cell_a", "A", "b", "GSM123.1", "c-1", "10", "9", "x y", "sample_A", "esc_1", "l1", "s", "cells", "ce",
+                     "rep1", "rep1 ", " rep1", "rep 1", "a ", "a"]),
     st.text("abcdefghijklmnopqrstuvwxyzABCDEFGHIJKLMNOPQRSTUVWXYZ0123456789_.-", min_size=1, max_size=10),
 ).filter(lambda s: s not in (".", ".."))
 
@@ -44,7 +45,9 @@ def cases(draw):
             # history: the path first holds an ordinary cooler (and is asked about) before the single-cell file replaces it
             "prior": draw(st.sampled_from([None, None, "cooler", "scool"])),
             "count_dtype": draw(st.sampled_from([None, None, "float64", "int64"])),
-            "key_form": draw(st.sampled_from(["plain", "plain", "listing"]))}
+            "key_form": draw(st.sampled_from(["plain", "plain", "listing"])),
+            # per-cell tables out of order (only inside rows, or completely) together with ensure_sorted=True
+            "unsorted": draw(st.sampled_from([None, None, "rows", "full"])), "unsorted_seed": draw(st.integers(0, 2**16))}
 
 
 def _natkey(s):
@@ -80,7 +83,16 @@ def check_scool(case, ctx: Ctx):
         if case.get("count_dtype"):
             bump = 0.5 if case["count_dtype"] == "float64" else 2**33
             rows = [[r[0], r[1], r[2] + bump, *r[3:]] for r in rows]
+        if case.get("unsorted"):
+            rng = np.random.RandomState(case["unsorted_seed"] + len(rows))
+            if case["unsorted"] == "full":
+                rows = [rows[t] for t in rng.permutation(len(rows)).tolist()]
+            else:
+                keys = rng.rand(len(rows)).tolist()
+                rows = [r for _, r in sorted(zip([(r[0], k) for r, k in zip(rows, keys)], rows), key=lambda t: t[0])]
         df = pixel_frame(rows, ["count", "x"])
+        if case.get("unsorted") and case["px_form"] == "chunks":
+            return iter([df])          # one chunk: sorting is per chunk, the chunk sequence itself must stay in order
         if case["px_form"] == "frame":
             # (create_scool documents its pixel tables as sorted by (bin1_id, bin2_id) whatever `ordered` says - it never
             # sorts: unsorted tables are outside its input domain, see DESIGN 9.3)
@@ -115,6 +127,8 @@ def check_scool(case, ctx: Ctx):
         kw["columns"] = list(case["cols"])
     if case["metadata"]:
         kw["metadata"] = case["metadata"]
+    if case.get("unsorted"):
+        kw["ensure_sorted"] = True
     try:
         # arguments equal to the documented defaults are left out in half of the cases (the pixel frames are sorted, so
         # the default ordered=False - sort-and-merge - must store the same thing)
@@ -188,7 +202,8 @@ def check_scool(case, ctx: Ctx):
     ctx.record(case, len(distinct) >= 2, ["scool", f"cells={len(cells)}", "bins=" + case["bins_form"], "px=" + case["px_form"],
                                           "has-empty-cell" if any(not v for v in cells.values()) else "no-empty-cell",
                                           "natsort-differs" if sorted(cells) != sorted(cells, key=_natkey) else "natsort-same",
-                                          "prior=" + str(case.get("prior")), "count=" + str(case.get("count_dtype"))])
+                                          "prior=" + str(case.get("prior")), "count=" + str(case.get("count_dtype")),
+                                          "unsorted=" + str(case.get("unsorted")), "blank-edged-name" if any(nm != nm.strip() for nm in cells) else "plain-names"])
 
 
 CHECKS = {"scool": check_scool}
